@@ -210,11 +210,6 @@ class _IntMeta(type):
     def __subclasscheck__(cls, sub):
         return issubclass(sub, int)
 
-    def __eq__(cls, other):
-        return other is int or other is cls
-
-    def __hash__(cls):
-        return hash(int)
 
 
 _cache = {}
